@@ -5,6 +5,7 @@ def spec(th, seed):
     units = []
     for p in range(1, 8):
         units.append(U('C01_vec.part%d' % p, 'mon/C01_vec.cpp', 'plain', defs=['-DPART=%d' % p]))
+    units.append(U('C01_vec.part3.clang', 'mon/C01_vec.cpp', 'clang', defs=['-DPART=3'], scale=0.3))
     # gtx/component_wise (anchored by C01): component-wise conversions against the vec1 call, reductions against the fold of the scalar operation
     units.append(U('C01_compwise', 'mon/C01_compwise.cpp', 'plain'))
     if th:
@@ -17,6 +18,12 @@ def spec(th, seed):
     if th:
         units.append(U('C01_alias.clang', 'mon/alias.cpp', 'clang', defs=['-DALIAS_PROP=1']))
         units.append(U('C01_alias.simd-sse2.O0', 'mon/alias.cpp', 'plainO0', defs=['-DALIAS_PROP=1', '-DGLM_FORCE_INTRINSICS', '-DGLM_FORCE_DEFAULT_ALIGNED_GENTYPES', '-msse2'], scale=0.2))
+    # constant-argument supplement (mon/constarg.cpp): scalar arguments as compile-time constants vs the same values read from volatiles; results must be bitwise identical
+    units.append(U('C01_constarg', 'mon/constarg.cpp', 'plain', defs=['-DCONST_PROP=11']))
+    if th:
+        units.append(U('C01_constarg.clang', 'mon/constarg.cpp', 'clang', defs=['-DCONST_PROP=11']))
+        units.append(U('C01_constarg.O3', 'mon/constarg.cpp', 'plainO3', defs=['-DCONST_PROP=11']))
+        units.append(U('C01_constarg.O1', 'mon/constarg.cpp', 'plainO1', defs=['-DCONST_PROP=11']))
     return {
         'units': units,
         'parallel_units': 4,
